@@ -2,6 +2,7 @@ import AnonCreds.Model.Wire
 import AnonCreds.Model.Fr
 import AnonCreds.Model.Vb20
 import AnonCreds.Model.Registry
+import AnonCreds.Model.Sigma
 /-
 Line-protocol driver: one request per line on stdin, one reply per line on stdout.
 Unknown or malformed requests answer `bad-op` (never a default value).
@@ -99,6 +100,52 @@ def vbOp (toks : List String) : Option String :=
     | _, _, _, _, _ => none
   | _ => none
 
+/-- `idx:scalar;idx:scalar` revealed list, `-` empty -/
+def rvlOf? (s : String) : Option (List (Nat × Fr)) :=
+  if s = "-" then some [] else (s.splitOn ";").mapM fun e =>
+    match e.splitOn ":" with
+    | [i, m] => match i.toNat?, frOf? m with
+      | some i, some m => some (i, m)
+      | _, _ => none
+    | _ => none
+
+def natsOf? (s : String) : Option (List Nat) := listOf? (·.toNat?) s
+
+/-- signature proofs of knowledge in discrete-log space (G1 = G2 = Fr, generator 1) -/
+def sigmaOp (toks : List String) : Option String :=
+  open AC.Sigma in
+  match toks with
+  | ["bbs.verify", x, ys, rvl, c, abar, bbar, t, proof] =>
+    match frOf? x, listOf? frOf? ys, rvlOf? rvl, frOf? c, frOf? abar, frOf? bbar, frOf? t, listOf? frOf? proof with
+    | some x, some ys, some rvl, some c, some abar, some bbar, some t, some proof =>
+      let π : BbsPok Fr Fr := ⟨abar, bbar, t, proof⟩
+      some (toString (bbsVerify (G := Fr) 1 ys rvl c π (decide (bbar = x * abar))))
+    | _, _, _, _, _, _, _, _ => none
+  | ["bbs.recommit", ys, rvl, c, abar, bbar, proof] =>
+    match listOf? frOf? ys, rvlOf? rvl, frOf? c, frOf? abar, frOf? bbar, listOf? frOf? proof with
+    | some ys, some rvl, some c, some abar, some bbar, some proof =>
+      some (g1Tok (bbsRecommit (G := Fr) 1 ys rvl c ⟨abar, bbar, 0, proof⟩))
+    | _, _, _, _, _, _ => none
+  | ["pok.hidden", n, offset, rvl, proof] =>
+    match n.toNat?, offset.toNat?, natsOf? rvl, listOf? frOf? proof with
+    | some n, some off, some rvl, some proof =>
+      match hiddenProofs n off rvl proof with
+      | some l => some ("ok " ++ showList (fun (p : Nat × Fr) => s!"{p.1}:{frHex p.2}") l)
+      | none => some "err"
+    | _, _, _, _ => none
+  | ["ps.recommit", w, ys, known, c, J, proof] =>
+    match frOf? w, listOf? frOf? ys, natsOf? known, frOf? c, frOf? J, listOf? frOf? proof with
+    | some w, some ys, some known, some c, some J, some proof =>
+      some ("@g2(" ++ frHex (psRecommit (G := Fr) (G1 := Fr) 1 w ys known c ⟨0, 0, J, proof⟩) ++ ")")
+    | _, _, _, _, _, _ => none
+  | ["ps.verify", x, ys, rvl, s1, s2, J, proof] =>
+    match frOf? x, listOf? frOf? ys, rvlOf? rvl, frOf? s1, frOf? s2, frOf? J, listOf? frOf? proof with
+    | some x, some ys, some rvl, some s1, some s2, some J, some proof =>
+      let π : PsPok Fr Fr Fr := ⟨s1, s2, J, proof⟩
+      some (toString (psVerify (G := Fr) ys rvl π (decide (s1 * psJ x ys rvl π = s2))))
+    | _, _, _, _, _, _, _ => none
+  | _ => none
+
 /-! ### stateful part: issuer registry (C13, C06) -/
 
 structure RegD where
@@ -162,6 +209,9 @@ def answer (d : DState) (line : String) : DState × String :=
   | some r => (d, r)
   | none =>
   match vbOp toks with
+  | some r => (d, r)
+  | none =>
+  match sigmaOp toks with
   | some r => (d, r)
   | none =>
   match regOp d toks with
